@@ -13,6 +13,7 @@ import (
 	"github.com/tonkeeper/tongo/boc"
 	"github.com/tonkeeper/tongo/tlb"
 
+	"verifharness/internal/cells"
 	"verifharness/internal/ev"
 )
 
@@ -42,12 +43,17 @@ func msgEvent(class string, d *decoded, cs *Case) ev.M {
 	return e
 }
 
+// refused: the library would not decode a message cell laid out per block.tlb — an event no specification action accepts
+func refused(class string, de *decodeErr) ev.M {
+	return ev.M{"k": "Decode", "class": class, "stage": de.stage, "cells": de.cells, "boc": de.boc, "err": de.err.Error()}
+}
+
 func side(d *decoded) ev.M { return ev.M{"cells": d.cells, "hn": d.hn, "hnc": d.hnc, "boc": d.boc} }
 
-// addrBits: the address as the library encodes it (for the harness's own declaration of "same destination")
+// addrBits: the address as bits (for the harness's own declaration of "same destination")
 func addrBits(a tlb.MsgAddress) string {
 	c := boc.NewCell()
-	if err := tlb.Marshal(c, a); err != nil {
+	if err := wAddr(c, a); err != nil {
 		return "err:" + err.Error()
 	}
 	bs := c.RawBitString()
@@ -81,7 +87,7 @@ func declare(a, b *tlb.Message) string {
 	return "differ"
 }
 
-func pairEvent(bl builder, why string, ca, cb Case, sa, sb Seeds, dec *tlb.Decoder, r *rand.Rand, exp string) (ev.M, error) {
+func pairEvent(bl builder, why string, ca, cb Case, sa, sb Seeds, dec *tlb.Decoder, r *rand.Rand) (ev.M, error) {
 	ma, err := bl.Build(ca, sa)
 	if err != nil {
 		return nil, err
@@ -91,19 +97,48 @@ func pairEvent(bl builder, why string, ca, cb Case, sa, sb Seeds, dec *tlb.Decod
 		return nil, err
 	}
 	decl := declare(ma, mb)
-	if exp == "" {
-		exp = decl
-	}
 	da, err := roundTrip(ma, dec, r.Intn(2) == 0, nil)
 	if err != nil {
-		return nil, err
+		return nil, withClass(err, class(ca))
 	}
 	db, err := roundTrip(mb, dec, r.Intn(2) == 0, nil)
 	if err != nil {
-		return nil, err
+		return nil, withClass(err, class(cb))
 	}
-	return ev.M{"k": "Pair", "why": why, "exp": exp, "built": decl, "a": side(da), "b": side(db),
-		"ca": ca.shape(), "cb": cb.shape()}, nil
+	return ev.M{"k": "Pair", "why": why, "exp": decl, "a": side(da), "b": side(db), "ca": ca.shape(), "cb": cb.shape(),
+		"adest": ca.Dest, "bdest": cb.Dest}, nil
+}
+
+type classed struct {
+	class string
+	de    *decodeErr
+}
+
+func (c *classed) Error() string { return c.de.Error() }
+
+func withClass(err error, class string) error {
+	if de, ok := err.(*decodeErr); ok {
+		return &classed{class, de}
+	}
+	return err
+}
+
+// emitErr records a failure: a refusal of the library to decode is an event for the specification to reject, anything else
+// (the harness could not lay a message out) is a BuildErr.
+func emitErr(w *ev.Writer, class string, err error, extra ev.M) {
+	var e ev.M
+	switch x := err.(type) {
+	case *decodeErr:
+		e = refused(class, x)
+	case *classed:
+		e = refused(x.class, x.de)
+	default:
+		e = ev.M{"k": "BuildErr", "class": class, "err": err.Error()}
+	}
+	for k, v := range extra {
+		e[k] = v
+	}
+	w.Emit(e)
 }
 
 // ------------------------------------------------------------------------------------------------ random cases
@@ -125,9 +160,9 @@ func randCase(r *rand.Rand, kind string) Case {
 }
 
 func class(c Case) string {
-	s := c.Kind + ":init=" + c.Init + ":body=" + c.Body
+	s := c.Kind + ":init=" + c.Init + ":body=" + c.Body + ":src=" + c.Src + ":dest=" + c.Dest
 	if c.Any {
-		s += ":anycast-" + map[string]string{"ext_in": c.Dest, "int": c.Dest, "ext_out": c.Src}[c.Kind]
+		s += ":anycast"
 	}
 	return s
 }
@@ -210,16 +245,17 @@ func Drive(w *ev.Writer, o Opts) error {
 				d, e = roundTrip(m, dec, r.Intn(2) == 0, exotic)
 				return e
 			})
-			if err == nil {
+			if _, refusal := err.(*decodeErr); err == nil || refusal {
 				break
 			}
 			bl.bodyMax /= 2
 		}
 		if err != nil {
-			w.Emit(ev.M{"k": "BuildErr", "class": cl, "err": err.Error()})
+			emitErr(w, cl, err, nil)
 			continue
 		}
 		w.Emit(msgEvent(cl, d, nil))
+		w.Emit(buildEvent(cl, d))
 	}
 	// (b) pairs of external-in messages that differ in one respect
 	bl.bodyMax, bl.uniform = 120, true
@@ -233,11 +269,11 @@ func Drive(w *ev.Writer, o Opts) error {
 		var e ev.M
 		err := safely(func() error {
 			var er error
-			e, er = pairEvent(bl, why, a, b, sa, sb, dec, r, "")
+			e, er = pairEvent(bl, why, a, b, sa, sb, dec, r)
 			return er
 		})
 		if err != nil {
-			w.Emit(ev.M{"k": "BuildErr", "class": "pair:" + why, "err": err.Error()})
+			emitErr(w, "pair:"+why, err, nil)
 			continue
 		}
 		w.Emit(e)
@@ -275,23 +311,41 @@ func Drive(w *ev.Writer, o Opts) error {
 // ------------------------------------------------------------------------------------------------ Replay (S->C)
 
 type vector struct {
-	K   string `json:"k"` // case | pair  (from TLC);  boc | pairboc | blockrec  (re-execution of a recorded event)
-	C   Case   `json:"c"`
-	A   Case   `json:"a"`
-	B   Case   `json:"b"`
-	Exp string `json:"exp"`
-	Vec int    `json:"vec"`
+	K     string    `json:"k"` // case | msg | pair  (from TLC);  boc | pairboc | blockrec  (re-execution of a recorded event)
+	C     Case      `json:"c"`
+	Cells []cells.C `json:"cells"` // the message as MsgHash!EncMsg laid it out
+	MsgID int       `json:"id"`    // msg: identity; pair refers to two of them
+	Emit  bool      `json:"emit"`  // msg: also record it as an event of its own
+	I     int       `json:"i"`
+	J     int       `json:"j"`
+	Exp   string    `json:"exp"`
+	Vec   int       `json:"vec"`
 	// re-execution
 	Class string `json:"class"`
 	Boc   string `json:"boc"`
 	BocB  string `json:"bocb"`
 	Src   string `json:"src"`
 	Pos   string `json:"pos"`
-	ID    string `json:"id"`
+	RecID string `json:"rec"`
 }
 
-// Replay concretises the abstract cases TLC enumerated: each becomes a Msg / Pair event with the real code's reports,
-// carrying the abstract case / the required relation for the trace specification to hold against the cells.
+// fromTable turns a cell table of the generator into cells (bit by bit, reference by reference) and decodes the message.
+func fromTable(t []cells.C, dec *tlb.Decoder, viaBoc bool) (*decoded, error) {
+	for i := range t {
+		if t[i].R == nil {
+			t[i].R = []int{}
+		}
+	}
+	roots, err := cells.Build(&cells.Table{Cells: t, Roots: []int{0}}, false)
+	if err != nil {
+		return nil, fmt.Errorf("layout: %w", err)
+	}
+	return decodeCell(roots[0], dec, viaBoc)
+}
+
+// Replay hands the library the message cells TLC laid out for the enumerated cases: each becomes a Msg (+ Build) or Pair
+// event with the real code's reports, carrying the abstract case / the required relation for the trace specification to hold
+// against the cells.
 func Replay(in string, w *ev.Writer, seed int64) error {
 	f, err := os.Open(in)
 	if err != nil {
@@ -300,9 +354,15 @@ func Replay(in string, w *ev.Writer, seed int64) error {
 	defer f.Close()
 	sc := bufio.NewScanner(f)
 	sc.Buffer(make([]byte, 1<<20), 1<<26)
-	bl := builder{}
 	dec := tlb.NewDecoder()
 	n := 0
+	type known struct {
+		d    *decoded
+		err  error
+		cl   string
+		dest string
+	}
+	msgs := map[int]*known{}
 	for sc.Scan() {
 		var v vector
 		if err := json.Unmarshal(sc.Bytes(), &v); err != nil {
@@ -313,29 +373,43 @@ func Replay(in string, w *ev.Writer, seed int64) error {
 			dec = tlb.NewDecoder()
 		}
 		r := rand.New(rand.NewSource(seed*1000003 + int64(v.Vec)))
-		base := r.Int63()
-		// values are functions of the abstract identities: same destv (bodyv) -> same destination (body)
-		seeds := func(c Case) Seeds {
-			return Seeds{Dest: base + int64(c.DestV)*7919 + int64(len(c.Dest)), Body: base + int64(c.BodyV)*104729, Other: r.Int63()}
-		}
-		var e ev.M
+		var es []ev.M
 		err := safely(func() error {
 			switch v.K {
 			case "case":
-				m, er := bl.Build(v.C, seeds(v.C))
+				d, er := fromTable(v.Cells, dec, r.Intn(2) == 0)
 				if er != nil {
-					return er
+					return withClass(er, class(v.C))
 				}
-				d, er := roundTrip(m, dec, r.Intn(2) == 0, nil)
+				es = append(es, msgEvent(class(v.C), d, &v.C), buildEvent(class(v.C), d))
+				return nil
+			case "msg":
+				d, er := fromTable(v.Cells, dec, r.Intn(2) == 0)
+				msgs[v.MsgID] = &known{d, er, class(v.C), v.C.Dest}
 				if er != nil {
-					return er
+					if _, refusal := er.(*decodeErr); refusal && !v.Emit {
+						return nil // recorded by the shard that emits this message (and with every pair that needs it)
+					}
+					return withClass(er, class(v.C))
 				}
-				e = msgEvent(class(v.C), d, &v.C)
+				if v.Emit {
+					es = append(es, msgEvent(class(v.C), d, &v.C), buildEvent(class(v.C), d))
+				}
 				return nil
 			case "pair":
-				var er error
-				e, er = pairEvent(bl, "gen", v.A, v.B, seeds(v.A), seeds(v.B), dec, r, v.Exp)
-				return er
+				a, b := msgs[v.I], msgs[v.J]
+				if a == nil || b == nil {
+					return fmt.Errorf("pair %d-%d refers to a message this file does not define", v.I, v.J)
+				}
+				if a.err != nil {
+					return withClass(a.err, a.cl)
+				}
+				if b.err != nil {
+					return withClass(b.err, b.cl)
+				}
+				es = append(es, ev.M{"k": "Pair", "why": "gen", "exp": v.Exp, "a": side(a.d), "b": side(b.d), "i": v.I, "j": v.J,
+					"adest": a.dest, "bdest": b.dest})
+				return nil
 			case "boc":
 				bag, er := hex.DecodeString(v.Boc)
 				if er != nil {
@@ -345,7 +419,7 @@ func Replay(in string, w *ev.Writer, seed int64) error {
 				if er != nil {
 					return er
 				}
-				e = msgEvent(v.Class, d, nil)
+				es = append(es, msgEvent(v.Class, d, nil), buildEvent(v.Class, d))
 				return nil
 			case "pairboc":
 				ba, er := hex.DecodeString(v.Boc)
@@ -364,7 +438,7 @@ func Replay(in string, w *ev.Writer, seed int64) error {
 				if er != nil {
 					return er
 				}
-				e = ev.M{"k": "Pair", "why": v.Class, "exp": v.Exp, "a": side(da), "b": side(db)}
+				es = append(es, ev.M{"k": "Pair", "why": v.Class, "exp": v.Exp, "a": side(da), "b": side(db)})
 				return nil
 			case "blockrec":
 				files, er := blockFiles(repo())
@@ -380,16 +454,16 @@ func Replay(in string, w *ev.Writer, seed int64) error {
 						continue
 					}
 					cnt, occ := 0, 0
-					return driveBlock(w, name, data, 1, 0, 0, 1, &cnt, &occ, func(pos, id string) bool { return pos == v.Pos && id == v.ID })
+					return driveBlock(w, name, data, 1, 0, 0, 1, &cnt, &occ, func(pos, id string) bool { return pos == v.Pos && id == v.RecID })
 				}
 				return fmt.Errorf("no block %q", v.Src)
 			}
 			return fmt.Errorf("unknown vector kind %q", v.K)
 		})
 		if err != nil {
-			e = ev.M{"k": "BuildErr", "err": err.Error()}
+			emitErr(w, v.Class, err, ev.M{"vec": v.Vec})
 		}
-		if e != nil {
+		for _, e := range es {
 			e["vec"] = v.Vec
 			w.Emit(e)
 		}
